@@ -284,6 +284,17 @@ NODE_OPS = ('substring2', 'substring3', 'before', 'after', 'contains', 'starts',
             'hbefore', 'hafter', 'hcontains', 'hstarts', 'hends', 'hcompare')
 
 
+# forms evaluated by a parser constructed with options
+FORM_KW = {
+    'default-collation=html': lambda: {'default_collation': HTML_URI},
+    'default-collation=html,arg=codepoint': lambda: {'default_collation': HTML_URI},
+    'default-collation=codepoint': lambda: {'default_collation': CP_URI},
+}
+H_TO_PLAIN = {'hbefore': 'substring-before($a0,$a1)', 'hafter': 'substring-after($a0,$a1)',
+              'hcontains': 'contains($a0,$a1)', 'hstarts': 'starts-with($a0,$a1)', 'hends': 'ends-with($a0,$a1)',
+              'hcompare': 'compare($a0,$a1)', 'hctoken': 'contains-token($a1,$a0)'}
+
+
 def variants(case, pidx: int):
     """the expressions through which the case is evaluated by parser `pidx`: the function call with
     all arguments as variables, plus (where they exist) the operator / short forms / literal forms /
@@ -299,6 +310,12 @@ def variants(case, pidx: int):
         out.append(('string-join($a1)', var, 'string-join/1', None))
     if op in ('before', 'after', 'contains', 'starts', 'ends', 'compare') and pidx >= 1:
         out.append((e[:-1] + f",'{CP_URI}')", var, 'collation-argument', None))
+        # parser option default_collation: explicit argument wins over an HTML default; a code-point default
+        out.append((e[:-1] + f",'{CP_URI}')", var, 'default-collation=html,arg=codepoint', None))
+        out.append((e, var, 'default-collation=codepoint', None))
+    if op in H_TO_PLAIN and pidx >= OPS[op][2]:
+        # the 2-argument form under a parser whose default collation is the HTML ASCII case-insensitive one
+        out.append((H_TO_PLAIN[op], var, 'default-collation=html', None))
     if op in ('substring2', 'substring3'):
         lits = []
         for n in args[1:]:
@@ -346,12 +363,21 @@ def extra_lines(case) -> dict:
     return {}
 
 
-def run_impl(case, pidx: int, e=None, var=None, root=None, unwrap=False) -> str:
+def err_canon(ex) -> str:
+    code = getattr(ex, 'code', None)
+    from elementpath.exceptions import ElementPathError
+    if isinstance(ex, ElementPathError) and code:
+        return 'ERR:' + str(code).split(':')[-1]
+    return f'ERR:OTHER:{type(ex).__name__}'
+
+
+def run_impl(case, pidx: int, e=None, var=None, root=None, unwrap=False, kw=None) -> str:
     E = env()
     if e is None:
         e, var = expr_of(case)
     try:
-        r = E['ep'].select(E['root'] if root is None else root, e, parser=E['parsers'][pidx], variables=var)
+        r = E['ep'].select(E['root'] if root is None else root, e, parser=E['parsers'][pidx], variables=var,
+                           **(kw or {}))
         if unwrap and isinstance(r, list) and len(r) == 1:
             r = r[0]       # a dynamic function call yields its result as a sequence
         return canon(r)
@@ -849,7 +875,8 @@ def compare(run: Run, cases: list) -> None:
                 if key:
                     model, spec, flag = ans[extra[key[0]]].split('|')
                     tags = ['F09j'] if (flag == '1' and pidx == 0 and key[0] == 's') else []
-                impl = run_impl(case, pidx, e, var, root, unwrap=(form == 'function-item'))
+                kw = FORM_KW[form]() if form in FORM_KW else None
+                impl = run_impl(case, pidx, e, var, root, unwrap=(form == 'function-item'), kw=kw)
                 st.count('parser:' + pname)
                 if form != 'call':
                     st.count('form:' + form)
@@ -886,6 +913,279 @@ class SpecOracleDisagreement(Disagreement):
         return 'tie'
 
 
+def fold_html(t: str) -> str:
+    return ''.join(chr(ord(c) + 32) if 'A' <= c <= 'Z' else c for c in t)
+
+
+def law_check(run: Run, cases: list) -> None:
+    """concat(substring-before(s,t), m, substring-after(s,t)) = s whenever contains(s,t), with m the factor of s
+    matched (equal to t under the collation) — checked on the real code for every way of choosing the collation:
+    default parser, default_collation=html (2 arguments), explicit 3rd argument, under 2.0/3.0/3.1 (and 1.0 plain)"""
+    E = env()
+    st = run.stats
+    for case in cases:
+        if case['op'] not in ('before', 'after', 'hbefore', 'hafter') or case['args'][0] is None or case['args'][1] is None:
+            continue
+        html = case['op'].startswith('h')
+        s_, t_ = s_of(case['args'][0]), s_of(case['args'][1])
+        var = {'a0': s_, 'a1': t_}
+        settings = []
+        if html:
+            settings += [(p, f",'{HTML_URI}'", {}) for p in (1, 2, 3)]
+            settings += [(p, '', {'default_collation': HTML_URI}) for p in (1, 2, 3)]
+        else:
+            settings += [(p, '', {}) for p in (0, 1, 2, 3)]
+            settings += [(p, '', {'default_collation': CP_URI}) for p in (1, 3)]
+            settings += [(p, f",'{CP_URI}'", {'default_collation': HTML_URI}) for p in (1, 3)]
+        key = fold_html if html else (lambda x: x)
+        for pidx, third, kw in settings:
+            res = []
+            for f in ('contains', 'substring-before', 'substring-after'):
+                try:
+                    res.append(E['ep'].select(E['root'], f'{f}($a0,$a1{third})', parser=E['parsers'][pidx],
+                                              variables=var, **kw))
+                except Exception as ex:
+                    res.append(err_canon(ex))
+            c, b, a = res
+            st.count('law:before++m++after')
+            ok = isinstance(c, bool) and isinstance(b, str) and isinstance(a, str)
+            if ok and c:
+                m = s_[len(b):len(b) + len(t_)]
+                ok = (b + m + a == s_) and key(m) == key(t_)
+            elif ok:
+                ok = (b == '' and a == '')
+            if not ok:
+                run.disagree(Disagreement(
+                    {'op': 'law', 'args': case['args'], 'collation': 'html' if html else 'codepoint',
+                     'parser': E['parsers'][pidx].__name__, 'parser_options': kw,
+                     'expr': f'contains / substring-before / substring-after ($a0,$a1{third})'},
+                    impl=f'contains={c!r} before={b!r} after={a!r}', model=None,
+                    spec='contains -> before ++ m ++ after = $a0 with m ~ $a1; not contains -> both empty',
+                    what='before-after-concat', site=OPS['before'][4]))
+
+
+def kinds_of(op):
+    return OPS[op][1]
+
+
+HISTORY_OPS = ['substring2', 'substring3', 'before', 'after', 'contains', 'starts', 'ends', 'translate', 'normalize',
+               'length', 'compare', 'cpequal', 'upper', 'lower', 'hbefore', 'hafter', 'hcontains', 'hstarts', 'hends',
+               'hcompare']
+
+
+def history_pass(run: Run, cases: list, groups: int) -> None:
+    """Call-site reuse.  Groups of 2-3 calls of one function: every combination of their argument values is
+    evaluated (i) by ONE parsed expression (a Selector) re-evaluated with other `variables=` — the first call once
+    more at the end —, (ii) by `for $x0 in $P0, $x1 in $P1 … return f($x0, $x1 …)` (2.0+), (iii) for 1.0 by a
+    predicate over sibling nodes carrying the arguments as attributes; results are compared element-wise with the
+    single-call results of the Lean spec (theorems history_eq_map, for_product_eq_single_calls)."""
+    import xml.etree.ElementTree as ET
+    E = env()
+    rng = run.rng
+    st = run.stats
+    byop: dict = {}
+    for c in cases:
+        if c['op'] in HISTORY_OPS and all(a is not None for a in c['args']):
+            byop.setdefault(c['op'], []).append(c)
+    plans = []
+    ops = [o for o in HISTORY_OPS if len(byop.get(o, [])) >= 2]
+    for _ in range(groups):
+        if not ops:
+            break
+        op = rng.choice(ops)
+        grp = rng.sample(byop[op], min(len(byop[op]), rng.choice([2, 2, 3])))
+        nargs = len(grp[0]['args'])
+        pools = []
+        for i in range(nargs):
+            pool = []
+            for c in grp:
+                if c['args'][i] not in pool:
+                    pool.append(c['args'][i])
+            pools.append(pool[:2] if nargs >= 3 else pool[:3])
+        if op == 'translate' and len(pools[2]) < 2:
+            pools[2] = pools[2] + [pools[2][0] + [120]]     # same map string, another trans string
+        # near variants of a string argument (same length, one character changed / reversed): a result cached
+        # under a weak key (length, first character, identity of another argument) shows up as a stale answer
+        for i in range(nargs):
+            if kinds_of(op)[i] == 'S' and pools[i] and pools[i][0]:
+                base = pools[i][0]
+                j = rng.randrange(len(base))
+                near = base[:j] + [base[j] + 1 if base[j] not in (0xD7FF, 0x10FFFF) else 97] + base[j + 1:]
+                cand = [near, base[::-1]]
+                room = (3 if nargs >= 3 else 4) - len(pools[i])
+                pools[i] = pools[i] + [c for c in cand if c not in pools[i]][:max(room, 1 if nargs < 3 else 0)]
+        combos = [list(t) for t in product(*pools)]
+        plans.append((op, pools, combos))
+    lines = sorted({case_line({'op': op, 'args': cb}, compat) for op, _, combos in plans for cb in combos
+                    for compat in (False, True)})
+    ans = dict(zip(lines, run.driver('C09', lines))) if lines else {}
+    for op, pools, combos in plans:
+        kinds = OPS[op][1]
+        e0 = OPS[op][0]
+        site = OPS[op][4]
+
+        def spec_of(cb, pidx):
+            return ans[case_line({'op': op, 'args': cb}, pidx == 0)].split('|')[1]
+
+        def value(k, a):
+            return s_of(a) if k == 'S' else num_value(a)
+
+        for pidx in range(OPS[op][2], 4):
+            pname = E['parsers'][pidx].__name__
+            # (i) one parsed expression, several evaluations
+            seq = combos + [combos[0]]
+            try:
+                sel = E['ep'].Selector(e0, parser=E['parsers'][pidx])
+                got = []
+                for cb in seq:
+                    try:
+                        got.append(canon(sel.select(E['root'], variables={f'a{i}': value(k, a) for i, (k, a) in
+                                                                            enumerate(zip(kinds, cb))})))
+                    except Exception as ex:
+                        got.append(err_canon(ex))
+            except Exception as ex:
+                got = [err_canon(ex)]
+            want = [spec_of(cb, pidx) for cb in seq]
+            st.count('history:selector-reuse')
+            st.evaluations += len(seq)
+            if got != want:
+                k = next((i for i, (g, w) in enumerate(zip(got, want)) if g != w), 0)
+                run.disagree(Disagreement({'op': op, 'history': 'one Selector, successive variables=', 'expr': e0,
+                                           'calls': seq[:k + 1], 'parser': pname, 'first_wrong_call': k},
+                                          impl=got[:k + 1], model=None, spec=want[:k + 1], what=f'history-{op}', site=site))
+            # (ii) for-expression over the pools
+            if pidx >= 1 and all(not w.startswith('ERR') for w in want):
+                fe = 'for ' + ', '.join(f'$x{i} in $P{i}' for i in range(len(pools))) + ' return ' + \
+                    __import__('re').sub(r'\$a(\d)', r'$x\1', e0)
+                var = {f'P{i}': [value(k, a) for a in pool] for i, (k, pool) in enumerate(zip(kinds, pools))}
+                try:
+                    r = E['ep'].select(E['root'], fe, parser=E['parsers'][pidx], variables=var)
+                    got = [canon(x) for x in r] if isinstance(r, list) else [canon(r)]
+                except Exception as ex:
+                    got = [err_canon(ex)]
+                want = [spec_of(cb, pidx) for cb in combos]
+                st.count('history:for-product')
+                st.evaluations += len(combos)
+                if got != want:
+                    run.disagree(Disagreement({'op': op, 'history': 'for-product', 'expr': fe, 'pools': pools,
+                                               'parser': pname}, impl=got, model=None, spec=want,
+                                              what=f'history-{op}', site=site))
+        # (iii) XPath 1.0 (and all): a predicate evaluated on sibling nodes that carry the arguments as attributes
+        if op in ('translate', 'before', 'after', 'contains', 'starts') and all(k == 'S' for k in kinds):
+            r = ET.Element('r')
+            for cb in combos:
+                w = ET.SubElement(r, 'w')
+                w.text = s_of(cb[0])
+                for i, a in enumerate(cb[1:], 1):
+                    w.set(f'p{i}', s_of(a))
+            e1 = __import__('re').sub(r'\$a(\d)', lambda m: '.' if m.group(1) == '0' else f'@p{m.group(1)}', e0)
+            for pidx in range(OPS[op][2], 4):
+                if op in ('contains', 'starts'):
+                    fe, want = f'count(w[{e1}])', None
+                    n = sum(1 for cb in combos if spec_of(cb, pidx) == 'B:1')
+                    want = [f'I:{n}']
+                else:
+                    # the distinct results, via string comparison node by node
+                    fe = f'w[{e1} = @want]'
+                    for wnode, cb in zip(r, combos):
+                        sp = spec_of(cb, pidx)
+                        wnode.set('want', s_of([int(x) for x in sp[2:].split()]) if sp.startswith('S:') else '\x00')
+                    want = [f'I:{len(combos)}']
+                    fe = f'count({fe})'
+                try:
+                    got = [canon(E['ep'].select(r, fe, parser=E['parsers'][pidx]))]
+                except Exception as ex:
+                    got = [err_canon(ex)]
+                got = [g.replace('F:0x', 'F:0x') for g in got]
+                if got and got[0].startswith('F:'):
+                    got = [canon(int(float.fromhex(got[0][2:])))]
+                st.count('history:predicate-over-nodes')
+                st.evaluations += len(combos)
+                if got != want:
+                    run.disagree(Disagreement({'op': op, 'history': 'predicate over sibling nodes', 'expr': fe,
+                                               'calls': combos, 'parser': E['parsers'][pidx].__name__},
+                                              impl=got, model=None, spec=want, what=f'history-{op}', site=site))
+
+
+def function_items_pass(run: Run, cases: list, groups: int) -> None:
+    """Function items created under one focus and called under another (3.0+): named function references of the
+    zero-argument, focus-dependent string functions, fn:function-lookup, and partial applications that fix `.`.
+    Document: <r><w>s1</w><w>s2</w>…</r>; expected values: the single-call results of the Lean spec for each s_i."""
+    import xml.etree.ElementTree as ET
+    E = env()
+    rng = run.rng
+    st = run.stats
+    pool = [c['args'][0] for c in cases if c['op'] in ('length', 'normalize', 'upper', 'substring2', 'contains')
+            and isinstance(c['args'][0], list)]
+    if len(pool) < 3:
+        return
+    FN = 'http://www.w3.org/2005/xpath-functions'
+    plans = []
+    for _ in range(groups):
+        strs = rng.sample(pool, rng.choice([2, 3, 4]))
+        plans.append(strs)
+    lines = sorted({f'{op}|{cps_line(s_)}' for strs in plans for s_ in strs for op in ('length', 'normalize', 'upperG', 'lowerG')}
+                   | {f'substring2|{cps_line(s_)}|2/1' for strs in plans for s_ in strs}
+                   | {f'contains|{cps_line(s_)}|97' for strs in plans for s_ in strs})
+    ans = dict(zip(lines, run.driver('C09', lines)))
+
+    def spec(line):
+        return ans[line].split('|')[1]
+
+    for strs in plans:
+        r = ET.Element('r')
+        for s_ in strs:
+            ET.SubElement(r, 'w').text = s_of(s_)
+        ident = ['S:' + cps_line(s_) for s_ in strs]
+        length = [spec(f'length|{cps_line(s_)}') for s_ in strs]
+        norm = [spec(f'normalize|{cps_line(s_)}') for s_ in strs]
+        upper = [spec(f'upperG|{cps_line(s_)}') for s_ in strs]
+        lower = [spec(f'lowerG|{cps_line(s_)}') for s_ in strs]
+        sub2 = [spec(f'substring2|{cps_line(s_)}|2/1') for s_ in strs]
+        cont = [spec(f'contains|{cps_line(s_)}|97') for s_ in strs]
+        names = ['S:119'] * len(strs)
+        exprs = [
+            ('for $f in w/string-length#0 return $f()', length),
+            ('(w ! string-length#0) ! .()', length),
+            ('for $f in w/normalize-space#0 return $f()', norm),
+            ('(w ! normalize-space#0) ! .()', norm),
+            ('for $f in w/string#0 return $f()', ident),
+            ('(w/string#0) ! .()', ident),
+            ('for $f in w/name#0 return $f()', names),
+            ('for $f in w/local-name#0 return $f()', names),
+            (f"for $f in w/function-lookup(QName('{FN}', 'string-length'), 0) return $f()", length),
+            (f"for $f in w/function-lookup(QName('{FN}', 'normalize-space'), 0) return $f()", norm),
+            (f"for $f in w/function-lookup(QName('{FN}', 'string'), 0) return $f()", ident),
+            ('for $f in w/upper-case(., ?) return 0', None),     # arity error: ignored (not a valid partial)
+            # (partial applications that fix `.` — `w/substring(., ?)` — evaluate the fixed argument at call time
+            #  on the pinned tree: a function-item defect outside this property, reported to C16, not checked here)
+            ('for $w in w return substring($w, ?)(2)', sub2),
+            ('for $w in w return (let $f := contains(?, "a") return $f($w))', cont),
+            ('let $fs := w/string-length#0 return (for $f in reverse($fs) return $f())', length[::-1]),
+            ('for $w in w return (let $f := upper-case#1 return $f($w))', upper),
+            ('for $w in w return (let $f := lower-case#1 return $f(string($w)))', lower),
+            ('let $f := string-length#1 return (for $w in w return $f($w))', length),
+            ('for $f in w/string-length#0, $g in w/normalize-space#0 return string-length($g()) - $f()', None),
+        ]
+        for pidx in (2, 3):
+            for fe, want in exprs:
+                if want is None:
+                    continue
+                try:
+                    res = E['ep'].select(r, fe, parser=E['parsers'][pidx])
+                    got = [canon(x) for x in res] if isinstance(res, list) else [canon(res)]
+                except Exception as ex:
+                    got = [err_canon(ex)]
+                st.count('function-items:' + fe.split('(')[0][:24].strip())
+                st.evaluations += len(strs)
+                if got != want:
+                    run.disagree(Disagreement({'op': 'function-item', 'expr': fe, 'texts': strs,
+                                               'parser': E['parsers'][pidx].__name__},
+                                              impl=got, model=None, spec=want, what='function-items',
+                                              site='elementpath/xpath30/_xpath30_operators.py name#arity; '
+                                                   '_xpath30_functions.py function-lookup'))
+
+
 def correspond(run: Run) -> None:
     rng = run.rng
     n = run.scale(18000, 300000)
@@ -898,6 +1198,9 @@ def correspond(run: Run) -> None:
                       'distinct = distinct driver request lines with a non-empty argument')
     for i in range(0, len(cases), 25000):
         compare(run, cases[i:i + 25000])
+    law_check(run, cases[:run.scale(2500, 40000)])
+    history_pass(run, cases, run.scale(400, 6000))
+    function_items_pass(run, cases, run.scale(150, 2000))
 
 
 def search(run: Run):
@@ -953,7 +1256,7 @@ def _still_fails(cands: list, what: str, parser: str) -> list:
 
 
 def shrink(d: Disagreement) -> Disagreement:
-    if not isinstance(d.case, dict) or 'op' not in d.case or d.case['op'] in ('conv', 'ctoken', 'hctoken'):
+    if not isinstance(d.case, dict) or 'op' not in d.case or d.case['op'] in ('conv', 'ctoken', 'hctoken', 'law', 'function-item') or 'history' in d.case:
         return d
     best = d
     import time
